@@ -42,9 +42,8 @@ CHECKS.append(check(
     "deterministic simulation: seeded goroutine scheduler over rewritten channel operations + reference model (in-memory reader) + in-simulation race detection",
     "DESIGN.md section 3 A, section 5 C14, Appendices A and G"))
 
-CSIM_NOTE = ("Sampling of (stream, schedule) pairs. Trusts: clang-14's ASan+UBSan (minus pointer-overflow, see DESIGN.md appendix D) to surface memory errors; the simulated caller obeys exactly the "
-             "contracts the repository's own callers obey (example/zcat, example/mzcat). Covers the eight io_transformer decoders (deflate, zlib, gzip, lzw, bzip2, lzma, xz, lzip via test/data); hashers, "
-             "image and token decoders are not driven yet. Runs on this VM's x86-64 SIMD paths only. If the working tree's compiler does not build, or clang rejects its output, the check exits 2 (no verdict).")
+CSIM_NOTE = ("Sampling of (stream, schedule) pairs. In C03, C05 and C07 one run in three to six drives an IMAGE decoder instead (bmp, gif, jpeg, netpbm, nie, png, qoi, targa, wbmp, webp, etc2, thumbhash through the generic wuffs_base__image_decoder interface: decode_image_config, then decode_frame_config / decode_frame for up to 6 frames into a BGRA pixel buffer) over the repository's image files incl. test/data/artificial-*, or PNG/GIF written by Go's encoders (C07: decoded pixels must equal the original), with the file delivered by a drawn schedule (all at once, fixed or drawn pieces, one split point, late close, empty wake-ups, consumed bytes compacted away or kept).  Trusts: clang-14's ASan+UBSan (minus pointer-overflow, see DESIGN.md appendix D) to surface memory errors; the simulated caller obeys exactly the "
+             "contracts the repository's own callers obey (example/zcat, example/mzcat). Covers the eight io_transformer decoders (deflate, zlib, gzip, lzw, bzip2, lzma, xz, lzip), the twelve image decoders and (C07) the hashers; token decoders (json, cbor), tell_me_more / metadata, restart_frame and quirks are not driven. Repository streams come from test/data and test/data/artificial-* (hand-made edge cases). UBSan's pointer-overflow and nonnull-attribute sub-checks are off (NULL+0 and memset(NULL,0,0) on empty slices touch no memory and are none of the defect classes C03 lists; ASan still traps any real NULL access): DESIGN.md appendix D. Runs on this VM's x86-64 SIMD paths only. If the working tree's compiler does not build, or clang rejects its output, the check exits 2 (no verdict).")
 
 CHECKS.append(check(
     "C03", "csim", "exploration",
@@ -68,7 +67,7 @@ CHECKS.append(check(
 CHECKS.append(check(
     "C08", "csim", "exploration",
     "Same simulator. One run = one call history of 3-11 steps on a decoder object whose memory starts raw (zeroes, 0xFF or noise, never initialised): initialize (ok / sizeof too small or too big / wrong version), transform_io with valid arguments over a valid or damaged stream delivered in drawn pieces, transform_io with a NULL source or NULL destination, re-initialisation at any point. Checked call by call against an explicit life-cycle state machine (Raw, Ready, Suspended, Disabled, NoClaim) written from doc/note/statuses.md and initialization.md that predicts exactly the statuses the property names ('initialize not called', 'bad sizeof receiver', 'bad wuffs version', 'bad argument', 'disabled by previous error'), plus the buffer contract on every call (source bytes and meta untouched, destination bytes below the old wi untouched, indexes monotone and in range).",
-    CSIM_NOTE + " io_transformer decoders only (one coroutine each): the image decoders' 'bad call sequence' clause and 'interleaved coroutine calls' are not driven yet. The model makes no prediction after a failed initialize or after a decode has finished, because the property says nothing there.",
+    CSIM_NOTE + " io_transformer decoders only (one coroutine each): the image decoders' 'bad call sequence' clause and 'interleaved coroutine calls' are not driven (C08 does not use the image path of the driver). The model makes no prediction after a failed initialize or after a decode has finished, because the property says nothing there.",
     "deterministic simulation: seeded call histories against an explicit life-cycle state machine + buffer-contract invariants",
     "DESIGN.md section 3 C, section 5 C08, Appendix C"))
 CHECKS.append(check(
